@@ -93,10 +93,9 @@ def run_gosym(workdir, programs, workers=None, samples=3, solver="z3", tag="run"
         os.remove(rp)
     json.dump(spec, open(sp, "w"), indent=1)
     t0 = time.time()
-    r = subprocess.run([BIN, "run", "-spec", sp, "-out", rp], env=GOENV, capture_output=True, text=True)
-    sys.stderr.write(r.stderr)
+    r = subprocess.run([BIN, "run", "-spec", sp, "-out", rp], env=GOENV, stdout=subprocess.PIPE, text=True)
     if not os.path.exists(rp):
-        log("gosym failed:", r.stdout[-2000:], r.stderr[-2000:])
+        log("gosym failed:", r.stdout[-2000:])
         return None, r.returncode
     res = json.load(open(rp))
     for i, x in enumerate(res):
